@@ -5,7 +5,7 @@ import apiharness
 import consolesim
 import sockcheck
 
-LEAN_MODULES = ["PyAirtouch.Props.C02", "PyAirtouch.Props.C02At4", "PyAirtouch.Props.C02At5"]
+LEAN_MODULES = ["PyAirtouch.Props.C02", "PyAirtouch.Props.C02Retry", "PyAirtouch.Props.C02At4", "PyAirtouch.Props.C02At5"]
 LEVEL = "proof"
 MONITORS = ["c02a", "c02b", "c02c", "c02d", "c01a", "c01d"]
 
